@@ -1707,7 +1707,10 @@ def m_localeconv(e, st, args):
         for k in range(1, 10): e.store(st, a + 8 * k, I64, emp)
         st.lconv = a
     return st.lconv
-BUILTIN_MODELS.update({'localeconv': m_localeconv})
+def m_strerror(e, st, args):
+    if not hasattr(st, 'strerr'): st.strerr = e.alloc(st, 8, 'global'); e.store_bytes(st, st.strerr, [ord('e'), ord('r'), ord('r'), 0, 0, 0, 0, 0])
+    return st.strerr
+BUILTIN_MODELS.update({'localeconv': m_localeconv, 'strerror': m_strerror})
 BUILTIN_MODELS.update({'gettimeofday': m_gettimeofday})
 BUILTIN_MODELS.update({'getcontext': m_getcontext, 'makecontext': m_makecontext, 'swapcontext': m_swapcontext})
 
